@@ -32,6 +32,7 @@ import GeoProofs.Lemmas.C08QScan
 import GeoProofs.Lemmas.C08QHull
 import GeoProofs.Lemmas.C08QQuick
 import GeoProofs.Lemmas.C08QRound
+import GeoProofs.Lemmas.C08QF64
 import Mathlib.Tactic.Linarith
 import Mathlib.Tactic.Ring
 
@@ -762,6 +763,26 @@ example : isStrictHull
   · decide +kernel
   · decide +kernel
   · decide +kernel
+
+/-- [T] the model's binary64 rounding `roundF64` (round to nearest, ties to even, subnormals) is
+monotone and fixes 0. -/
+theorem roundF64_monotone : (∀ x y : Rat, x ≤ y → roundF64 x ≤ roundF64 y) ∧ roundF64 0 = 0 :=
+  ⟨roundF64_mono, roundF64_zero⟩
+
+/-- [Tp] **`grahamHull_isStrictHull` for `f64`** (distances rounded with `roundF64` after every
+operation, as the model does for the `f64` scalar): the checker accepts `graham_hull(.., false)`
+on every input outside the driver's SKIP class `grahamTie`.
+(Full statement without `hnt` fails: with two distinct collinear coordinates of equal rounded
+distance the order after the sort is not determined by the comparator.) -/
+theorem grahamHull_isStrictHull_f64_partial (pts : List Pt) (ht : hasTriangle pts = true)
+    (hnt : grahamTie roundF64 (swapRemove pts (leastIndex pts)).1 (swapRemove pts (leastIndex pts)).2 = false) :
+    isStrictHull (grahamHull roundF64 pts false) pts = true :=
+  grahamHull_isStrictHull_notie_partial roundF64 roundF64_mono roundF64_zero pts ht hnt
+
+example : isStrictHull
+    (grahamHull roundF64 [⟨1 / 10, 1⟩, ⟨2, 0⟩, ⟨0, 0⟩, ⟨1, 0⟩, ⟨2, 2⟩, ⟨0, 2⟩, ⟨1 / 3, 1 / 3⟩] false)
+    [⟨1 / 10, 1⟩, ⟨2, 0⟩, ⟨0, 0⟩, ⟨1, 0⟩, ⟨2, 2⟩, ⟨0, 2⟩, ⟨1 / 3, 1 / 3⟩] = true :=
+  grahamHull_isStrictHull_f64_partial _ (by decide +kernel) (by decide +kernel)
 
 /-- [T] **`grahamHull_isStrictHull`, exact scalar types** (`rnd = id`; `i64` without overflow):
 the Graham scan of the model returns the strict convex hull, for all inputs with three
